@@ -94,7 +94,7 @@ pub fn handcrafted(rng: &mut Rng, fmt: Format, shape: ShapeId, name: &str) -> Ve
         ShapeId::VecOf => rng.range_usize(0, 3),
         _ => 1,
     };
-    match fmt {
+    match fmt.base() {
         Format::Json => {
             let items: Vec<String> = (0..k).map(|_| { let t: &str = *rng.pick(JSON); subst(t, rng, name) }).collect();
             match shape {
@@ -131,5 +131,6 @@ pub fn handcrafted(rng: &mut Rng, fmt: Format, shape: ShapeId, name: &str) -> Ve
                 _ => items[0].clone(),
             }
         }
+        _ => unreachable!(),
     }
 }
